@@ -21,6 +21,7 @@ import (
 
 	pb "github.com/libp2p/go-libp2p-pubsub/pb"
 	"github.com/libp2p/go-libp2p/core/peer"
+	"github.com/libp2p/go-libp2p/core/protocol"
 )
 
 type vfElem struct {
@@ -331,12 +332,40 @@ func vfC11SplitOne(r *vfRun, shape vfC11Shape, limit int, judge bool) string {
 
 // ---- part 2: through sendRPC into a real queue
 
+// vfDropRec is a raw tracer that records, at the moment of the callback, what an RPC reported as dropped holds.
+type vfDropRec struct {
+	drops []map[string]int
+}
+
+func (d *vfDropRec) DropRPC(rpc *RPC, p peer.ID) {
+	m := map[string]int{}
+	for _, e := range vfRPCElements(rpc) {
+		m[e.key]++
+	}
+	d.drops = append(d.drops, m)
+}
+func (d *vfDropRec) OnNewOutboundStream(peer.ID, protocol.ID) {}
+func (d *vfDropRec) OnClosedOutboundStream(peer.ID)           {}
+func (d *vfDropRec) Join(string)                              {}
+func (d *vfDropRec) Leave(string)                             {}
+func (d *vfDropRec) Graft(peer.ID, string)                    {}
+func (d *vfDropRec) Prune(peer.ID, string)                    {}
+func (d *vfDropRec) ValidateMessage(*Message)                 {}
+func (d *vfDropRec) DeliverMessage(*Message)                  {}
+func (d *vfDropRec) RejectMessage(*Message, string)           {}
+func (d *vfDropRec) DuplicateMessage(*Message)                {}
+func (d *vfDropRec) ThrottlePeer(peer.ID)                     {}
+func (d *vfDropRec) RecvRPC(*RPC)                             {}
+func (d *vfDropRec) SendRPC(*RPC, peer.ID)                    {}
+func (d *vfDropRec) UndeliverableMessage(*Message)            {}
+
 func vfC11SendOne(r *vfRun, shape vfC11Shape, limit int, piggy bool, judge bool) (obs string) {
 	c := vfC11Case{Part: "send", Shape: shape, Limit: limit, Piggy: piggy}
 	p := vfBubble(r.t, func() {
 		w := newVfWorld()
+		rec := &vfDropRec{}
 		n, err := vfNewNode(w, "N", "gossip", WithMessageSignaturePolicy(StrictNoSign), WithMaxMessageSize(limit), WithPeerOutboundQueueSize(256),
-			WithGossipSubParams(vfGSParams("d2")))
+			WithGossipSubParams(vfGSParams("d2")), WithRawTracer(rec))
 		if err != nil {
 			panic(err)
 		}
@@ -403,6 +432,34 @@ func vfC11SendOne(r *vfRun, shape vfC11Shape, limit int, piggy bool, judge bool)
 				r.violation("send:"+fp, fmt.Sprintf("sendRPC(limit=%d) of %+v: %s", limit, shape, msg), c)
 			}
 		})
+		// "(and reported as dropped)": whatever of the original is not queued must be in a drop report, as the report
+		// stood when the tracer was called
+		{
+			have := map[string]int{}
+			for _, qd := range queued {
+				for _, e := range vfRPCElements(qd) {
+					have[e.key]++
+				}
+			}
+			for _, d := range rec.drops {
+				for k, c := range d {
+					have[k] += c
+				}
+			}
+			wantCount := map[string]int{}
+			for _, e := range vfRPCElements(expected) {
+				wantCount[e.key]++
+			}
+			for k, n := range wantCount {
+				if have[k] < n && judge {
+					kind := k[:strings.IndexByte(k+":", ':')]
+					r.violation("send:c11:dropped-unreported:"+kind, fmt.Sprintf("sendRPC(limit=%d) of %+v: element %s is neither queued nor in an RPC reported as dropped", limit, shape, vfShortKey(k)), c)
+				}
+			}
+			if len(rec.drops) > 0 {
+				r.count("sendrpc_cases_with_drop_reports", 1)
+			}
+		}
 		if nt {
 			r.nontrivial(fmt.Sprintf("send|%+v|%d", shape, limit))
 		}
